@@ -1,5 +1,5 @@
 CONSTANTS N = 3  Clients = {1, 2}
-SPECIFICATION ASpec
+SPECIFICATION MCSpec
 INVARIANT ATypeOK PartBetween FinalIsClosure
 PROPERTY Monotone
 CHECK_DEADLOCK FALSE
